@@ -75,7 +75,7 @@ let run_op (name : string) (o : op) : string =
   world := w;
   let extra = if int_of_z left <> 0 then Printf.sprintf " EVENTS_LEFT %d" (int_of_z left) else "" in
   let r = int_of_z rc in
-  Printf.sprintf "%s r=%d |%s%s" name r (dump ()) (if name = "parse" && r = 1 then " EVENTS_SHORT" else extra)
+  Printf.sprintf "%s r=%d |%s%s" name r (dump ()) (if name = "parse" && r = -98 then " EVENTS_SHORT" else extra)
 
 let () = iter_lines (fun line ->
   match words line with
